@@ -127,3 +127,36 @@ V('C17', 'server-belief-reread-after-await', 'edb/server/compiler_pool/server.py
   '            status, *data = pickle.loads(resp)\n            if status == 0:\n', '            status, *data = pickle.loads(resp)\n            client_schema = self._clients.get(client_id, client_schema)\n            if status == 0:\n', 'C17.R6', '_call_for_client:belief')
 V('C17', 'neg-server-belief-renamed-local', 'edb/server/compiler_pool/server.py', 'edb.server.compiler_pool.server.MultiSchemaPool._call_for_client',
   '            status, *data = pickle.loads(resp)\n            if status == 0:\n', '            status, *data = pickle.loads(resp)\n            nclients = len(self._clients)\n            if status == 0 and nclients >= 0:\n', None)
+
+# round 4
+W = 'edb/server/compiler_pool/worker.py'
+V('C17', 'revert-fix-sync-stores-before-decoding', W,
+  'edb.server.compiler_pool.worker.__sync__',
+  '            GLOBAL_SCHEMA = global_schema_unpacked\n',
+  '            GLOBAL_SCHEMA = pickle.loads(global_schema)\n',
+  'C17.R8', 'all-or-nothing')
+V('C17', 'decoding-outside-guarded-try', W,
+  'edb.server.compiler_pool.worker.__sync__',
+  '''    try:
+        # Unpickle everything before storing anything: if this fails,
+        # the caller keeps assuming that we have the old state.
+        global_schema_unpacked = (
+            None if global_schema is None else pickle.loads(global_schema))
+''', '''    global_schema_unpacked = (
+        None if global_schema is None else pickle.loads(global_schema))
+    try:
+''', 'C17.R3', 'decoding-guarded')
+V('C17', 'server-diff-only-requested-db', 'edb/server/compiler_pool/server.py',
+  'edb.server.compiler_pool.server.ClientSchema.diff',
+  '            other_state = other.dbs.get(dbname)\n',
+  '            if dbname.startswith("__"):\n                continue\n            other_state = other.dbs.get(dbname)\n',
+  'C17.R8', 'every-database')
+V('C17', 'remote-pool-keeps-stale-diff', 'edb/server/compiler_pool/pool.py',
+  'edb.server.compiler_pool.pool.RemotePool._compute_compile_preargs',
+  '''            del preargs, callback
+            await self._sync_lock.acquire()
+            preargs, callback = await super()._compute_compile_preargs(*args)
+            if not callback:
+                self._sync_lock.release()
+''', '''            await self._sync_lock.acquire()
+''', 'C17.R8', 'diff-after-lock')
